@@ -87,6 +87,8 @@ SAN = ["-fsanitize=address,undefined", "-fno-sanitize-recover=undefined"]
 HARNESS = {
     # name: (source, compiler, flags, libs, config kwargs)
     "h_exact": dict(src="h_exact.cpp", cxx="clang++", flags=["-O1", "-g"] + SAN, libs=["-lrapidcheck", "-ltbb", "-lboost_timer"]),
+    "h_alg": dict(src="h_alg.cpp", cxx="clang++", flags=["-O1", "-g"] + SAN, libs=["-lrapidcheck"]),
+    "h_comp": dict(src="h_comp.cpp", cxx="clang++", flags=["-O1", "-g"] + SAN, libs=["-lrapidcheck", "-ltbb", "-lboost_timer"]),
 }
 
 
@@ -124,10 +126,24 @@ def build_harness(name):
 
 # ----------------------------------------------------------------------------- known findings
 def load_findings():
-    p = os.path.join(VERIF, "known_findings.json")
+    """known_findings.txt: 'fixed: property=<id> <commit> <what>' (suppresses nothing) and
+    'open: property=<id> key=<failure-key-prefix> <what>' (that key is reported as KNOWN-FINDING, anything else is a VIOLATION)."""
+    p = os.path.join(VERIF, "known_findings.txt")
+    out = []
     if not os.path.exists(p):
-        return []
-    return json.load(open(p)).get("findings", [])
+        return out
+    for line in open(p):
+        line = line.strip()
+        if not line or line.startswith("#"):
+            continue
+        m = re.match(r"open:\s+property=(\S+)\s+key=(\S+)\s+(.*)", line)
+        if m:
+            out.append(dict(property=m.group(1), key=m.group(2), status="open", what=m.group(3)))
+            continue
+        m = re.match(r"fixed:\s+property=(\S+)\s+(\S+)\s+(.*)", line)
+        if m:
+            out.append(dict(property=m.group(1), commit=m.group(2), status="fixed", what=m.group(3), key=None))
+    return out
 
 
 def open_findings(pid):
@@ -168,6 +184,58 @@ prop("C02", harness="h_exact",
           "and two distinct simple cycles of equal weight (brute-force sizes) or tied edge weights (larger sizes).",
      assumptions=["exact arithmetic domain; oracle arithmetic in __int128 scaled by 2^62",
                   "reference de Pina implementation is cross-validated against the brute force in the self-test of each run"])
+
+
+prop("C17", harness="h_alg",
+     quick=dict(shards=16, cases=5000),
+     thorough=dict(shards=16, cases=150000),
+     rule="Model-based history check: generated operation lists (<=60 ops: unit/set/copy/move construction and assignment incl. self-assignment, "
+          "+, += incl. aliasing, clear, vector*vector, vector*set) over 4 registers and dimension 1..70 against a dense vector<bool> model; after "
+          "EVERY operation all registers must list exactly the model's ones in strictly increasing order with matching size(); products equal the "
+          "model parity. Non-trivial = history contains a + / += with overlapping operands and a later product.",
+     assumptions=["moved-from vectors are cleared before reuse (their state is unspecified)", "indices < dimension"])
+prop("C18", harness="h_alg",
+     quick=dict(shards=16, cases=5000),
+     thorough=dict(shards=16, cases=100000),
+     rule="Generated arguments for T in {int,long,cpp_int}: ext_gcd over all sign/zero patterns, a=+-b, a|b, consecutive Fibonacci, random magnitudes; "
+          "get_mult_inverse for prime and composite moduli, any sign of a; is_prime over small values, prime squares, Carmichael numbers, searched "
+          "primes, the top of each type's range; SpVecFP operation lists (=index,+,+=,*scalar incl. negative/zero/huge,*=,dot,copy,move,clear) against a "
+          "dense cpp_int model mod p checked after every op. Oracle arithmetic in cpp_int; is_prime oracle = deterministic Miller-Rabin. "
+          "Non-trivial = ext_gcd with a zero/negative argument, inverse with gcd!=1 or negative a or p<=3, is_prime of a prime or p<=3, SpVecFP with a "
+          "negative scalar or p<=3.",
+     assumptions=["built-in types: |a|,|b| < 2^15 (int) / 2^31 (long) for ext_gcd and p <= 46340 / 3037000499 for inverses and SpVecFP so that a*x, (p-1)^2 "
+                  "and |scalar|*p are representable in T (the equations of the property must be evaluable in the type); cpp_int unrestricted up to 2^200",
+                  "is_prime: whole int range; long/cpp_int restricted by trial-division cost to p < 2^36 or numbers with a factor <= 997"])
+prop("C12", harness="h_comp",
+     quick=dict(shards=16, cases=1000, env={"VERIF_MAXN": "14"}),
+     thorough=dict(shards=16, cases=15000, env={"VERIF_MAXN": "22"}),
+     rule="Generated graphs with tie-heavy exact palettes (80% unit/{1,2}/{1,2,3}) x {double,int}; all n SPTree objects are built and "
+          "compared with an exact Dijkstra APSP oracle: node==nullptr iff unreachable, weight()==d(s,v), every pred edge tight, pred chain "
+          "reaches the root, first(v)==child of root on the path; across trees: path(u,v)==reverse path(v,u) and every sub-path of a chosen "
+          "path is the chosen path between its endpoints. Non-trivial = some ordered pair has >=2 distinct shortest paths (path counting in the oracle).",
+     assumptions=["exact weight domain", "index/weight maps outlive the trees (as in the library's own callers)"])
+prop("C13", harness="h_comp",
+     quick=dict(shards=16, cases=4000, env={"VERIF_MAXN": "30"}),
+     thorough=dict(shards=16, cases=80000, env={"VERIF_MAXN": "60"}),
+     rule="Generated simple graphs (all shapes, extra pendant trees) -> greedy_fvs; oracle: outputs are vertices, pairwise distinct, removing "
+          "them leaves a forest (union-find), forest input -> empty output. Non-trivial = graph has a cycle and, replaying the emitted order, "
+          "removing a chosen vertex triggers at least one leaf clean-up removal.",
+     assumptions=["simple undirected graphs"])
+prop("C14", harness="h_comp",
+     quick=dict(shards=16, cases=800, env={"VERIF_MAXN": "12"}),
+     thorough=dict(shards=16, cases=10000, env={"VERIF_MAXN": "20"}),
+     rule="Generated graphs x exact palettes x {double,int}; Horton, FVS and ISO builders called directly. Oracle per candidate: edge not a "
+          "tree edge, both root paths exist and meet only at the root, union is one simple cycle, recorded weight == exact sum; FVS and ISO "
+          "are subsets of Horton as (root,edge) pairs with identical cycles; greedy-by-weight with GF(2) independence over each collection "
+          "reaches dimension m-n+c and the reference optimum weight. Non-trivial = dimension>=2 and |ISO|<|Horton|.",
+     assumptions=["exact weight domain"])
+prop("C16", harness="h_comp",
+     quick=dict(shards=16, cases=5000, env={"VERIF_MAXN": "30"}),
+     thorough=dict(shards=16, cases=100000, env={"VERIF_MAXN": "60"}),
+     rule="Generated simple graphs incl. empty, edgeless, forests, many components; oracle: indices are a bijection onto 0..m-1, both lookups "
+          "inverse, components == union-find count, dimension == m-n+c, is_on_forest iff index>=dimension, on-forest edges acyclic and n-c many, "
+          "copy/assignment preserve the mapping. Non-trivial = >=2 components and dimension>=1.",
+     assumptions=["simple undirected graphs"])
 
 
 # ----------------------------------------------------------------------------- running shards
